@@ -288,6 +288,56 @@ fn custom_strategy() -> impl Strategy<Value = CustomCase> + Clone {
     (id, gens::payload(&[30, 31, 255, 256], 4096)).prop_map(|(id, data)| CustomCase { id, data })
 }
 
+
+/// A minimal serde data format that hands `CustomAddr`'s byte field to the visitor in each of
+/// the ways a serde format may: borrowed bytes, transient bytes, an owned buffer, a sequence.
+mod anyformat {
+    use serde::de::{self, DeserializeSeed, Deserializer, IntoDeserializer, SeqAccess, Visitor, value::Error};
+
+    #[derive(Debug, Clone, Copy, PartialEq)]
+    pub enum BytesAs { Borrowed, Transient, Owned, Seq }
+    pub const ALL: [BytesAs; 4] = [BytesAs::Borrowed, BytesAs::Transient, BytesAs::Owned, BytesAs::Seq];
+
+    pub struct CustomAddrDe<'a> { pub id: u64, pub data: &'a [u8], pub mode: BytesAs }
+    struct BytesDe<'a> { data: &'a [u8], mode: BytesAs }
+
+    impl<'de> Deserializer<'de> for BytesDe<'de> {
+        type Error = Error;
+        fn deserialize_any<V: Visitor<'de>>(self, v: V) -> Result<V::Value, Error> {
+            match self.mode {
+                BytesAs::Borrowed => v.visit_borrowed_bytes(self.data),
+                BytesAs::Transient => { let copy = self.data.to_vec(); v.visit_bytes(&copy) }
+                BytesAs::Owned => v.visit_byte_buf(self.data.to_vec()),
+                BytesAs::Seq => v.visit_seq(de::value::SeqDeserializer::new(self.data.iter().copied())),
+            }
+        }
+        serde::forward_to_deserialize_any! { bool i8 i16 i32 i64 i128 u8 u16 u32 u64 u128 f32 f64 char str string bytes byte_buf option unit unit_struct newtype_struct seq tuple tuple_struct map struct enum identifier ignored_any }
+    }
+
+    struct Fields<'a> { id: Option<u64>, data: Option<&'a [u8]>, mode: BytesAs }
+    impl<'de> SeqAccess<'de> for Fields<'de> {
+        type Error = Error;
+        fn next_element_seed<T: DeserializeSeed<'de>>(&mut self, seed: T) -> Result<Option<T::Value>, Error> {
+            if let Some(id) = self.id.take() {
+                return seed.deserialize(id.into_deserializer()).map(Some);
+            }
+            if let Some(data) = self.data.take() {
+                return seed.deserialize(BytesDe { data, mode: self.mode }).map(Some);
+            }
+            Ok(None)
+        }
+    }
+
+    impl<'de> Deserializer<'de> for CustomAddrDe<'de> {
+        type Error = Error;
+        fn deserialize_any<V: Visitor<'de>>(self, v: V) -> Result<V::Value, Error> {
+            v.visit_seq(Fields { id: Some(self.id), data: Some(self.data), mode: self.mode })
+        }
+        fn is_human_readable(&self) -> bool { false }
+        serde::forward_to_deserialize_any! { bool i8 i16 i32 i64 i128 u8 u16 u32 u64 u128 f32 f64 char str string bytes byte_buf option unit unit_struct newtype_struct seq tuple tuple_struct map struct enum identifier ignored_any }
+    }
+}
+
 fn custom_routes(a: &CustomAddr, id: u64, data: &[u8]) -> Outcome {
     check!(a.id() == id && a.data() == data, "C02:custom-accessors", "id/data accessors: {a:?}");
     let v = a.to_vec();
@@ -304,6 +354,11 @@ fn custom_routes(a: &CustomAddr, id: u64, data: &[u8]) -> Outcome {
         ("postcard", postcard::from_bytes(&postcard::to_stdvec(a).unwrap()).ok()),
         ("json", serde_json::from_str(&serde_json::to_string(a).unwrap()).ok()),
     ];
+    let mut routes = routes;
+    for mode in anyformat::ALL {
+        let name: &'static str = match mode { anyformat::BytesAs::Borrowed => "serde-borrowed-bytes", anyformat::BytesAs::Transient => "serde-bytes", anyformat::BytesAs::Owned => "serde-byte-buf", anyformat::BytesAs::Seq => "serde-seq" };
+        routes.push((name, <CustomAddr as serde::Deserialize>::deserialize(anyformat::CustomAddrDe { id, data, mode }).ok()));
+    }
     for (name, r) in routes {
         match r {
             None => return Outcome::violation("C02:custom-roundtrip", format!("route {name} rejected own encoding of {a:?}")),
